@@ -280,7 +280,11 @@ class H2Protocol:
     async def _handle_events(self, events: List[h2.events.Event]) -> None:
         for event in events:
             if isinstance(event, h2.events.RequestReceived):
-                if self.context.terminated.is_set():
+                if self.keep_alive_requests > self.config.keep_alive_max_requests:
+                    # The client has been told to go away, with the last
+                    # stream that is processed, this one is beyond it.
+                    continue
+                elif self.context.terminated.is_set():
                     self.connection.reset_stream(event.stream_id)
                     self.connection.update_settings(
                         {h2.settings.SettingCodes.MAX_CONCURRENT_STREAMS: 0}
@@ -299,7 +303,7 @@ class H2Protocol:
                     await self.send(Updated(idle=self.idle))
 
                 if self.keep_alive_requests > self.config.keep_alive_max_requests:
-                    self.connection.close_connection()
+                    self.connection.close_connection(last_stream_id=event.stream_id)
             elif isinstance(event, h2.events.DataReceived):
                 if event.stream_id in self.streams:
                     # Otherwise the response has been sent before the full
